@@ -43,16 +43,32 @@ Definition all_some {A} (l : list (option A)) : option (list A) :=
   fold_right (fun o acc => match o, acc with Some x, Some r => Some (x :: r) | _, _ => None end) (Some []) l.
 Definition m_cgrfile (S : Z) (recs : list (list N)) : list N :=
   match all_some (map (cgr_b64 corner_cgr S) recs) with
-  | Some rows => join semi (map (fun l => join comma (map show_fpt l)) rows)
+  | Some rows => dec_nat (length rows) ++ [35] ++ join semi (map (fun l => join comma (map show_fpt l)) rows)
   | None => err end.
 Definition s_cgrfile (S : Z) (recs : list (list N)) : list N :=
   match all_some (map (cgr_exact corner_spec S) recs) with
-  | Some rows => join semi (map (fun l => join comma (map show_dpt (firstn (exact_prefix S) l) ++ repeat [126] (length l - exact_prefix S))) rows)
+  | Some rows => dec_nat (length rows) ++ [35] ++
+                 join semi (map (fun l => join comma (map show_dpt (firstn (exact_prefix S) l) ++ repeat [126] (length l - exact_prefix S))) rows)
   | None => err end.
 Definition m_ocgrfile (k : nat) (S : Z) (norm : bool) (recs : list (list N)) : list N :=
-  join semi (map (m_ocgr k S norm) recs).
+  dec_nat (length recs) ++ [35] ++ join semi (map (m_ocgr k S norm) recs).
 Definition s_ocgrfile (k : nat) (S : Z) (norm : bool) (recs : list (list N)) : list N :=
-  join semi (map (s_ocgr k S norm) recs).
+  dec_nat (length recs) ++ [35] ++ join semi (map (s_ocgr k S norm) recs).
+
+(* ---------- Python batch calls: the list of per-sequence results in argument order ---------- *)
+Definition m_obatch (k : nat) (norm : bool) (recs : list (list N)) : list N :=
+  dec_nat (length recs) ++ [35] ++ join semi (map (m_oligo k norm) recs).
+Definition s_obatch (k : nat) (norm : bool) (recs : list (list N)) : list N :=
+  dec_nat (length recs) ++ [35] ++ join semi (map (s_oligo k norm) recs).
+Definition m_cbatch (S : Z) (recs : list (list N)) : list N := m_cgrfile S recs.
+Definition s_cbatch (S : Z) (recs : list (list N)) : list N := s_cgrfile S recs.
+
+(* ---------- C14: what the hook log must contain ---------- *)
+Definition windows (k : nat) (recs : list (list N)) : nat := fold_right (fun s a => (oligo_total k s + a)%nat) 0%nat recs.
+Definition windows_spec (k : nat) (recs : list (list N)) : nat := fold_right (fun s a => (oligo_total_spec k s + a)%nat) 0%nat recs.
+Definition show_hooks (writes index : nat) : list N :=
+  [111;111;98;61;48;124;116;105;108;101;100;61;49;124;119;114;105;116;101;115;61] ++ dec_nat writes ++
+  [124;105;110;100;101;120;61] ++ dec_nat index.
 
 (* ---------- ctr ---------- *)
 Definition all_canon (k : nat) (recs : list (list N)) : list N :=
